@@ -206,7 +206,9 @@ def inline_aliases(R, al):
                 raise AlignError(('alias', 'hoisted-name-bound-more-than-once-or-deleted'), tgt.id)
             if decls:
                 raise AlignError(('alias', 'hoisted-name-declared-global-or-nonlocal'), tgt.id)
-            loads = [o for o in occs if o[3] == 'load']
+            # a class body's fall-through read (name bound later in the class body) is not a use of the alias the minifier made:
+            # it is left alone here and judged (or skipped, if the original raises NameError there) by binding_maps
+            loads = [o for o in occs if o[3] == 'load' and (id(o[0]), o[1]) not in res.fallback_occ]
             rec['value'] = ('const', st.value.value)
             rec['uses'] = len(loads)
             for o in loads:
